@@ -40,6 +40,10 @@ func init() {
 				fmt.Println(completes(os.Args[i+1]))
 				os.Exit(0)
 			}
+			if strings.HasPrefix(os.Args[i+1], "slow,") {
+				fmt.Println(slowUpstream(os.Args[i+1]))
+				os.Exit(0)
+			}
 			if strings.HasPrefix(os.Args[i+1], "lin,") {
 				fmt.Println(linearize(os.Args[i+1]))
 				os.Exit(0)
@@ -57,6 +61,12 @@ func (e echoAgent) SignWithFlags(k ssh.PublicKey, d []byte, f sshagent.Signature
 	return e.Agent.(sshagent.ExtendedAgent).SignWithFlags(k, d, f)
 }
 func (e echoAgent) Extension(t string, c []byte) ([]byte, error) {
+	if t == "slow@verif" { // an answer that takes its time (a PIN prompt, a slow token)
+		time.Sleep(5600 * time.Millisecond)
+	}
+	if t == "pause@verif" { // keeps the operation that forwards it inside the shim for a moment
+		time.Sleep(3 * time.Millisecond)
+	}
 	time.Sleep(200 * time.Microsecond)
 	return append([]byte(t+":"), c...), nil
 }
@@ -358,7 +368,72 @@ func genRace(g *hx.Gen, out *hx.Out) {
 	}
 	// every operation completes: all sequences of 4 operations, both modes
 	sets = append(sets, []string{"seq", "0", "4"}, []string{"seq", "1", "4"})
+	// an underlying agent that takes several seconds over one answer
+	sets = append(sets, []string{"slow", "0"})
 	out.Batch("rc", "race", sets, 3, func(a []string) []string { return safe(runRace, a) })
+}
+
+// slowUpstream: one caller forwards a request that the underlying agent answers after several
+// seconds; meanwhile other callers send their own. However long the answer takes, every caller gets
+// the reply to its own request (or an error), and every operation completes.
+// spec: slow,<noup 0|1>
+func slowUpstream(spec string) string {
+	ring := sshagent.NewKeyring()
+	sock, stop := underlying(echoAgent{ring})
+	defer stop()
+	y, err := shimagent.New(shimagent.Option{Address: sock, NoUpstream: strings.HasSuffix(spec, ",1")})
+	if err != nil {
+		return "newerr"
+	}
+	mk := func(ext string, payload []byte) []byte {
+		req := append([]byte{27}, sshStr([]byte(ext))...)
+		return append(req, payload...)
+	}
+	var mu sync.Mutex
+	var problems []string
+	report := func(s string) { mu.Lock(); problems = append(problems, s); mu.Unlock() }
+	var wg sync.WaitGroup
+	wg.Add(1)
+	go func() {
+		defer wg.Done()
+		payload := []byte("slow-caller")
+		resp, err := y.Forward(mk("slow@verif", payload))
+		if err == nil && !bytes.Contains(resp, payload) {
+			report("mixup:slow-caller")
+		}
+	}()
+	time.Sleep(300 * time.Millisecond)
+	for gi := 0; gi < 6; gi++ {
+		wg.Add(1)
+		go func(gi int) {
+			defer wg.Done()
+			for i := 0; i < 3; i++ {
+				payload := []byte(fmt.Sprintf("caller-%d-%d", gi, i))
+				var resp []byte
+				var err error
+				if gi%2 == 0 {
+					resp, err = y.Forward(mk("echo@verif", payload))
+				} else {
+					resp, err = y.Extension("echo@verif", payload)
+				}
+				if err == nil && !bytes.Contains(resp, payload) {
+					report("mixup:forward-after-slow-reply")
+				}
+			}
+		}(gi)
+	}
+	done := make(chan struct{})
+	go func() { wg.Wait(); close(done) }()
+	select {
+	case <-done:
+	case <-time.After(40 * time.Second):
+		return "hang"
+	}
+	if len(problems) > 0 {
+		sort.Strings(problems)
+		return problems[0]
+	}
+	return "ok"
 }
 
 // ---------------------------------------------------------------- two-operation linearizability rounds
@@ -378,7 +453,7 @@ var linCA ssh.Signer
 func newLinWorld(noup bool, priv ed25519.PrivateKey, cert *ssh.Certificate, preHard bool) *linWorld {
 	ring := sshagent.NewKeyring()
 	ring.Add(sshagent.AddedKey{PrivateKey: &priv, Comment: "k"})
-	sock, stop := underlying(ring)
+	sock, stop := underlying(echoAgent{ring})
 	y, err := shimagent.New(shimagent.Option{Address: sock, NoUpstream: noup})
 	if err != nil {
 		panic(err)
@@ -511,6 +586,13 @@ func linearize(spec string) string {
 		wg.Add(2)
 		go func() { defer wg.Done(); <-start; ra = a.run(w) }()
 		go func() { defer wg.Done(); <-start; rb = b.run(w) }()
+		if i%2 == 1 {
+			// every other round the two operations arrive while a third one is inside the shim, so
+			// that both queue for the lock and run back to back when it is released
+			wg.Add(1)
+			go func() { defer wg.Done(); w.y.Extension("pause@verif", nil) }()
+			time.Sleep(500 * time.Microsecond)
+		}
 		close(start)
 		wg.Wait()
 		got := ra + "," + rb + " " + final(w)
